@@ -596,7 +596,25 @@ Section Render.
               rbind (log_write (`"bhm(" ++ hv_name h ++ `")") s) (fun _ s1 => opt_render f (hv_tpl h) s1)
           | HLocal n =>
               let txt := `"local(" ++ n ++ `":" ++ params_text (hv_params h) ++ `")" in
-              if starts_with (`"f:") n
+              if starts_with (`"c:") n
+              then (* logs the usual line, captures its block body with Renderable::renders (a fresh
+                      in-memory output that never fails, the same render context otherwise), then
+                      writes "<", the captured text, ">"; on error the error propagates unchanged and
+                      nothing of the body reaches the real output *)
+                   match hv_tpl h with
+                   | None => ROk tt (log_entry s txt)
+                   | Some t =>
+                       let s0 := log_entry s txt in
+                       match render_template f t (set_out s0 (out_new None)) with
+                       | ROk _ s2 =>
+                           rbind (out_write (`"<") (set_out s2 (s_out s0))) (fun _ s3 =>
+                           rbind (out_write (out_text (s_out s2)) s3) (fun _ s4 => out_write (`">") s4))
+                       | RErr e s2 => RErr e (set_out s2 (s_out s0))
+                       | RPanic p => RPanic p
+                       | RFuel => RFuel
+                       end
+                   end
+              else if starts_with (`"f:") n
               then (* logs the usual line, then write!(out, "literal-0123456789") — a format string
                       without arguments *)
                    out_write (`"literal-0123456789") (log_entry s txt)
